@@ -67,10 +67,20 @@ class Result:
                 values are dictionaries containing the frequency and the
                 post-measurement state corresponding to the outcome.
         """
-        return {
-            branch.outcome: {"frequency": branch.frequency, "state": branch.state}
-            for branch in self.branches
-        }
+        ret: dict = {}
+
+        for branch in self.branches:
+            # NOTE: Several branches may carry the same outcome, e.g., for imperfect
+            # detectors, where different actual outcomes yield the same detected one.
+            # Their frequencies add up (the state of the last such branch is kept).
+            frequency = branch.frequency
+
+            if branch.outcome in ret:
+                frequency = ret[branch.outcome]["frequency"] + frequency
+
+            ret[branch.outcome] = {"frequency": frequency, "state": branch.state}
+
+        return ret
 
     @property
     def branches(self) -> List[Branch]:
